@@ -17,11 +17,15 @@ Tie of the Lean model (`Model/LoadersNsf.lean`: `parseNsfLine`, `fixNumber`, `Ns
    is compared with the model;
 5. the direct oracle (the translator's reading of the row that belongs to the atom, exact
    Fractions) is evaluated on every swept atom; the nodes of the energy-dependent tables are also
-   asked for with one wavelength array per length refilled in place between calls;
+   asked for with one wavelength array per length refilled in place between calls, and on a pickled-and-
+   restored / copy.copy / copy.deepcopy twin of the record (`oracle_nodes_twins`);
 6. oracle-only sweeps of private tables prepared differently: densities of some elements unknown or
    revised before `nsf.init` (seeded), and a table whose records and energy-dependent arrays were
    revised and that was re-initialised with `nsf.init(table, reload=True)` (the public table is then
-   judged once more).
+   judged once more);
+7. fresh-interpreter probes: each probe atom as the very first neutron access of a process
+   (`first_touch_probe`), and `nsf.init(private, reload=True)` as the very first neutron action, after which
+   the public and the private table must still report the swept rows (`reload_first_probe`).
 """
 from __future__ import annotations
 
@@ -294,7 +298,44 @@ def oracle_atom(exp: Expect, tbl, z, a, symbol):
                     break
             else:
                 bad.extend(oracle_nodes_buffered(n, tblrows, nsf))
+                if not bad:
+                    bad.extend(oracle_nodes_twins(n, tblrows, nsf))
     return bad
+
+
+def oracle_nodes_twins(n, tblrows, nsf):
+    """the record of an energy-dependent entry handed on the usual ways - pickled and restored (sent to a
+    worker), `copy.copy`, `copy.deepcopy` (the starting point of a revised record) - is still that entry:
+    at every tabulated energy exactly the tabulated complex length, and the plain row fields unchanged"""
+    import copy
+    import pickle
+    import numpy
+    lams = [float(nsf.neutron_wavelength(float(r[0].frac()) * 1000)) for r in tblrows]
+    want = [complex(float(r[1].frac()), float(r[2].frac())) for r in tblrows]
+    routes = [("pickle.loads(pickle.dumps(record))", lambda: pickle.loads(pickle.dumps(n))),
+              ("pickle protocol 0 round trip", lambda: pickle.loads(pickle.dumps(n, 0))),
+              ("copy.copy(record)", lambda: copy.copy(n)),
+              ("copy.deepcopy(record)", lambda: copy.deepcopy(n))]
+    for how, make in routes:
+        try:
+            twin = make()
+            got = [complex(g) for g in twin.scattering_by_wavelength(numpy.array(lams))[0]]
+            first = complex(twin.scattering_by_wavelength(lams[0])[0])
+            flag = bool(twin.is_energy_dependent) == bool(n.is_energy_dependent)
+            same_row = all(P.tok(getattr(twin, f)) == P.tok(getattr(n, f))
+                           for f in ("b_c", "bp", "bm", "coherent", "incoherent", "total", "absorption"))
+        except Exception as e:  # noqa
+            return [("b_c at the nodes of %s" % how, "values", "X:" + type(e).__name__)]
+        if not flag:
+            return [("is_energy_dependent of %s" % how, repr(bool(n.is_energy_dependent)), repr(not n.is_energy_dependent))]
+        if not same_row:
+            return [("row fields of %s" % how, "those of the record", "differ")]
+        if len(got) != len(want):
+            return [("b_c at the nodes of %s" % how, "%d values" % len(want), "%d values" % len(got))]
+        for l, w, g in zip(lams[:1] + lams, want[:1] + want, [first] + got):
+            if not (g.real == w.real and g.imag == w.imag):
+                return [("b_c at wavelength %r of %s" % (l, how), repr(w), repr(g))]
+    return []
 
 
 def oracle_nodes_buffered(n, tblrows, nsf):
@@ -765,6 +806,63 @@ def first_touch_probe(run: Run, pt):
                           % ((z, a), got, want), dict(kind="first-touch", z=z, a=a), observable="first-touch")
 
 
+def reload_first_probe(run: Run, pt):
+    """a fresh interpreter whose first neutron action is `nsf.init(private, reload=True)` (mass and density
+    initialised before, as in doc/sphinx/guide/customizing.rst): afterwards the atoms of the PUBLIC table -
+    and of the private one - still report the rows the (already swept) loaded table reports"""
+    import json as _json
+    import os
+    import subprocess
+    import sys
+    from ..common import REPO
+    probes = [(1, 0), (1, 2), (26, 0), (26, 56), (62, 149), (64, 157), (94, 239), (43, 0), (118, 0)]
+    keys = ("b_c", "b_c_i", "bp", "total", "absorption", "abundance", "is_energy_dependent", "b_c_complex")
+    code = ("import sys, json; sys.path.insert(0, %r); import periodictable as pt\n"
+            "from periodictable import core, mass, density, nsf\n"
+            "priv = core.PeriodicTable('c07-reload-first')\n"
+            "mass.init(priv); density.init(priv)\n"
+            "nsf.init(priv, reload=True)\n"
+            "out = {}\n"
+            "for label, tbl in (('public', pt.elements), ('private', priv)):\n"
+            "    for z, a in json.loads(sys.argv[1]):\n"
+            "        x = tbl[z][a] if a else tbl[z]\n"
+            "        n = x.neutron\n"
+            "        out['%%s %%d %%d' %% (label, z, a)] = [repr(getattr(n, k, 'absent')) for k in %r] + [repr(n.has_sld()),"
+            " repr(getattr(x, 'nuclear_spin', 'absent')) if a else 'n/a',"
+            " repr(None if n.nsf_table is None else complex(n.scattering_by_wavelength(float(n.nsf_table[0][0]))[0]))]\n"
+            "print(json.dumps(out))\n"
+            % (str(REPO), keys))
+    want = {}
+    try:
+        for z, a in probes:
+            x = pt.elements[z][a] if a else pt.elements[z]
+            n = x.neutron
+            want[(z, a)] = [repr(getattr(n, k, "absent")) for k in keys] + [
+                repr(n.has_sld()), repr(getattr(x, "nuclear_spin", "absent")) if a else "n/a",
+                repr(None if n.nsf_table is None else complex(n.scattering_by_wavelength(float(n.nsf_table[0][0]))[0]))]
+        p = subprocess.run([sys.executable, "-c", code, _json.dumps(probes)], capture_output=True, text=True,
+                           timeout=300, env=dict(os.environ, PYTHONDONTWRITEBYTECODE="1"))
+    except Exception as e:  # noqa
+        run.violation("reload-first probe raises: %s: %s" % (type(e).__name__, e),
+                      dict(kind="reload-first"), observable="reload-first")
+        return
+    if p.returncode != 0:
+        run.count(key=("reload-first", "process"), nontrivial=True, tag="reload-first")
+        run.violation("nsf.init(private, reload=True) as the first neutron action of a process, then reading "
+                      "the tables, raises: %s" % p.stderr.strip()[-300:], dict(kind="reload-first"),
+                      observable="reload-first")
+        return
+    got = _json.loads(p.stdout.strip().splitlines()[-1])
+    for label in ("public", "private"):
+        for z, a in probes:
+            run.count(key=("reload-first", label, z, a), nontrivial=True, tag="reload-first")
+            g = got.get("%s %d %d" % (label, z, a))
+            if g != want[(z, a)]:
+                run.violation("after nsf.init(private, reload=True) as the first neutron action of a process the %s "
+                              "table reports %r for %r; the embedded row (as swept) is %r" % (label, g, (z, a), want[(z, a)]),
+                              dict(kind="reload-first", table=label, z=z, a=a), observable="reload-first", z=z, a=a)
+
+
 def run(run: Run) -> int:
     pt = import_repo()
     from periodictable import mass, density, nsf, nsf_tables
@@ -804,6 +902,7 @@ def run(run: Run) -> int:
                                   dict(table="public", after="private-reloaded", z=z, a=a, observable=name,
                                        expected=e, got=g), observable=name, z=z, a=a)
     first_touch_probe(run, pt)
+    reload_first_probe(run, pt)
     run.exhaustive = True
     n = 30 if run.tier == "quick" else 1500
     real_rows = src["nsftable"].split("\n")
@@ -832,6 +931,8 @@ def replay(data) -> int:
                    for s, a, rows in inp["ed"]]
             run_generated(r, [(inp["nsftable"], inp["nsftableI"], edc, {"replay"})], mass_lines, symbols,
                           src["ABSORPTION_WAVELENGTH"], (mass, density, nsf, nsf_tables))
+        elif inp.get("kind") == "reload-first":
+            reload_first_probe(r, pt)
         elif inp.get("kind") == "selfcheck":
             print(run_driver("loader", nsf_lines(src["nsftable"], src["nsftableI"], ed3(ed)) + ["nsf_selfcheck"]))
         else:
